@@ -3,6 +3,7 @@ package engine
 import (
 	"fmt"
 	"go/token"
+	"go/types"
 
 	"golang.org/x/tools/go/ssa"
 )
@@ -94,35 +95,147 @@ func (q PathQuery) evalBool(v ssa.Value, n *pnode, depth int) (val, known bool) 
 	return false, false
 }
 
-// resolvePhi follows phis along the path to the operand actually selected.
-func (q PathQuery) resolvePhi(v ssa.Value, n *pnode, depth int) ssa.Value {
-	if depth > 8 {
-		return nil
+// resolvePhiAt follows phis along the path to the operand actually selected
+// and returns it with the path position it has to be interpreted at.
+func (q PathQuery) resolvePhiAt(v ssa.Value, n *pnode, depth int) (ssa.Value, *pnode) {
+	if depth > 12 {
+		return nil, nil
 	}
 	x, ok := v.(*ssa.Phi)
 	if !ok {
-		return v
+		return v, n
 	}
 	for m := n; m != nil; m = m.prev {
 		if m.b != x.Block() {
 			continue
 		}
 		if m.prev == nil {
-			return nil
+			return nil, nil
 		}
 		for i, p := range x.Block().Preds {
 			if p == m.prev.b && i < len(x.Edges) {
-				return q.resolvePhi(x.Edges[i], m.prev, depth+1)
+				return q.resolvePhiAt(x.Edges[i], m.prev, depth+1)
 			}
 		}
-		return nil
+		return nil, nil
 	}
-	return nil
+	return nil, nil
+}
+
+func (q PathQuery) resolvePhi(v ssa.Value, n *pnode, depth int) ssa.Value {
+	r, _ := q.resolvePhiAt(v, n, depth)
+	return r
+}
+
+// evalInt evaluates small integer expressions along the path: constants,
+// +,-,*, phis (by the path), len of fixed-size arrays and of slices of them.
+func (q PathQuery) evalInt(v ssa.Value, n *pnode, depth int) (int64, bool) {
+	if depth > 12 || v == nil {
+		return 0, false
+	}
+	if c, ok := ConstInt(v); ok {
+		return c, true
+	}
+	switch x := v.(type) {
+	case *ssa.Phi:
+		rv, pos := q.resolvePhiAt(x, n, 0)
+		if rv == nil || rv == ssa.Value(x) {
+			return 0, false
+		}
+		return q.evalInt(rv, pos, depth+1)
+	case *ssa.Convert:
+		return q.evalInt(x.X, n, depth+1)
+	case *ssa.BinOp:
+		a, ok1 := q.evalInt(x.X, n, depth+1)
+		b, ok2 := q.evalInt(x.Y, n, depth+1)
+		if !ok1 || !ok2 {
+			return 0, false
+		}
+		switch x.Op {
+		case token.ADD:
+			return a + b, true
+		case token.SUB:
+			return a - b, true
+		case token.MUL:
+			return a * b, true
+		}
+	case *ssa.Call:
+		if b, ok := x.Call.Value.(*ssa.Builtin); ok && b.Name() == "len" && len(x.Call.Args) == 1 {
+			return staticLen(x.Call.Args[0])
+		}
+	}
+	return 0, false
+}
+
+// staticLen: length of a fixed-size array value/pointer or a full slice of one.
+func staticLen(v ssa.Value) (int64, bool) {
+	t := v.Type().Underlying()
+	if p, ok := t.(*types.Pointer); ok {
+		t = p.Elem().Underlying()
+	}
+	if a, ok := t.(*types.Array); ok {
+		return a.Len(), true
+	}
+	if sl, ok := v.(*ssa.Slice); ok && sl.Low == nil && sl.High == nil {
+		return staticLen(sl.X)
+	}
+	if ms, ok := v.(*ssa.MakeSlice); ok {
+		return func() (int64, bool) { c, ok := ConstInt(ms.Len); return c, ok }()
+	}
+	return 0, false
+}
+
+// evalCond evaluates a branch condition along the path: booleans under the
+// assumptions, nil tests of values assumed non-nil, integer comparisons.
+func (q PathQuery) evalCond(v ssa.Value, n *pnode) (bool, bool) {
+	if r, k := q.evalBool(v, n, 0); k {
+		return r, true
+	}
+	for {
+		u, ok := v.(*ssa.UnOp)
+		if !ok || u.Op != token.NOT {
+			break
+		}
+		r, k := q.evalCond(u.X, n)
+		return !r, k
+	}
+	if b, ok := v.(*ssa.BinOp); ok {
+		switch b.Op {
+		case token.EQL, token.NEQ, token.LSS, token.LEQ, token.GTR, token.GEQ:
+			x, ok1 := q.evalInt(b.X, n, 0)
+			y, ok2 := q.evalInt(b.Y, n, 0)
+			if ok1 && ok2 {
+				switch b.Op {
+				case token.EQL:
+					return x == y, true
+				case token.NEQ:
+					return x != y, true
+				case token.LSS:
+					return x < y, true
+				case token.LEQ:
+					return x <= y, true
+				case token.GTR:
+					return x > y, true
+				case token.GEQ:
+					return x >= y, true
+				}
+			}
+		}
+	}
+	return false, false
 }
 
 // Find returns a witness path (sequence of instructions of interest: the
 // first instruction of every block traversed and the goal) or nil when every
 // path from the start is cut before reaching a goal.
+//
+// The search is path-sensitive: branch conditions that can be evaluated along
+// the path walked (assumed booleans, phis resolved by the path, nil tests of
+// values assumed non-nil, small integer expressions such as the trip count of
+// a loop over a literal array) are only followed on the consistent side. It
+// enumerates paths depth-first with a bound on revisits; when the bound or
+// the step budget is hit it falls back to a path-insensitive breadth-first
+// search, which over-approximates the set of paths (never hides one).
 func (q PathQuery) Find() []ssa.Instruction {
 	var startB *ssa.BasicBlock
 	startI := 0
@@ -170,14 +283,18 @@ func (q PathQuery) Find() []ssa.Instruction {
 	} else if cut {
 		return nil
 	}
-	type key struct{ b, pred *ssa.BasicBlock }
-	seen := map[key]bool{}
-	queue := []*pnode{start}
-	steps := 0
-	for len(queue) > 0 && steps < 20000 {
-		n := queue[0]
-		queue = queue[1:]
+	// phase A: path-sensitive depth-first enumeration
+	const maxVisits = 12
+	steps, incomplete := 0, false
+	visits := map[*ssa.BasicBlock]int{}
+	var found []ssa.Instruction
+	var dfs func(n *pnode) bool
+	dfs = func(n *pnode) bool {
 		steps++
+		if steps > 40000 {
+			incomplete = true
+			return false
+		}
 		var ifi *ssa.If
 		if len(n.b.Instrs) > 0 {
 			ifi, _ = n.b.Instrs[len(n.b.Instrs)-1].(*ssa.If)
@@ -186,10 +303,61 @@ func (q PathQuery) Find() []ssa.Instruction {
 			if q.Prune != nil && q.Prune(n.b, s) {
 				continue
 			}
-			if ifi != nil && (len(q.Assume) > 0 || len(q.NonNil) > 0) && len(n.b.Succs) == 2 && n.b.Succs[0] != n.b.Succs[1] {
-				if v, known := q.evalBool(ifi.Cond, n, 0); known && v != (si == 0) {
+			if ifi != nil && len(n.b.Succs) == 2 && n.b.Succs[0] != n.b.Succs[1] {
+				if v, known := q.evalCond(ifi.Cond, n); known && v != (si == 0) {
 					continue
 				}
+			}
+			if visits[s] >= maxVisits {
+				incomplete = true
+				continue
+			}
+			nn := &pnode{b: s, prev: n}
+			g, cut := scan(s, 0)
+			if g != nil {
+				found = build(nn, g)
+				return true
+			}
+			if cut {
+				continue
+			}
+			visits[s]++
+			ok := dfs(nn)
+			visits[s]--
+			if ok {
+				return true
+			}
+			if incomplete && steps > 40000 {
+				return false
+			}
+		}
+		return false
+	}
+	// a cheap pre-check: if even the path-insensitive search finds nothing, there is no path
+	if q.bfs(start, scan, build) == nil {
+		return nil
+	}
+	if dfs(start) {
+		return found
+	}
+	if !incomplete {
+		return nil
+	}
+	// phase B: path-insensitive fallback
+	return q.bfs(start, scan, build)
+}
+
+// bfs is the path-insensitive search (only Prune is honoured).
+func (q PathQuery) bfs(start *pnode, scan func(*ssa.BasicBlock, int) (ssa.Instruction, bool), build func(*pnode, ssa.Instruction) []ssa.Instruction) []ssa.Instruction {
+	type key struct{ b, pred *ssa.BasicBlock }
+	seen := map[key]bool{}
+	queue := []*pnode{start}
+	for len(queue) > 0 {
+		n := queue[0]
+		queue = queue[1:]
+		for _, s := range n.b.Succs {
+			if q.Prune != nil && q.Prune(n.b, s) {
+				continue
 			}
 			k := key{s, n.b}
 			if seen[k] {
